@@ -13,7 +13,9 @@
 (***************************************************************************)
 EXTENDS Integers, Sequences, FiniteSets, TLC
 
-CONSTANTS NMsgs, Limit, MaxFaults
+CONSTANTS NMsgs, Limit, MaxFaults,
+          FlakyPeer,       \* TRUE: a peer in a crash loop - it accepts the connection and breaks it again, without any bound
+          ResetOnConnect   \* TRUE: the variant "a successful connect resets the attempt counter" (a seeded change)
 
 VARIABLES next,        \* next message the sender will enqueue (1..NMsgs+1)
           attempt,     \* attempts made for the current message
@@ -33,7 +35,7 @@ Sending == next <= NMsgs
 \* one iteration of the retry loop for message `next`
 Connect ==
     /\ Sending /\ conn = "none"
-    /\ IF peerUp THEN conn' = "up" /\ UNCHANGED <<attempt, next, dead>>
+    /\ IF peerUp THEN conn' = "up" /\ attempt' = (IF ResetOnConnect THEN 0 ELSE attempt) /\ UNCHANGED <<next, dead>>
        ELSE \* refused: retry or give up
             IF attempt >= Limit THEN dead' = dead \cup {next} /\ next' = next + 1 /\ attempt' = 0 /\ conn' = conn
             ELSE attempt' = attempt + 1 /\ UNCHANGED <<next, dead, conn>>
@@ -71,7 +73,13 @@ PeerDown == /\ faults < MaxFaults /\ peerUp /\ peerUp' = FALSE /\ faults' = faul
             /\ UNCHANGED <<next, attempt, delivered, dead>>
 PeerBack == /\ ~peerUp /\ peerUp' = TRUE /\ UNCHANGED <<next, attempt, conn, inflight, delivered, dead, lostSilently, faults>>
 
-Next == Connect \/ Write \/ PeerRead \/ Cut \/ PeerDown \/ PeerBack
+\* the crash-looping peer: like Cut, but it costs nothing (the attempt counter is the only thing that ends the retries)
+Flake == /\ FlakyPeer /\ conn = "up"
+         /\ conn' = "broken"
+         /\ lostSilently' = lostSilently \cup {inflight[i] : i \in 1..Len(inflight)} /\ inflight' = <<>>
+         /\ UNCHANGED <<next, attempt, peerUp, delivered, dead, faults>>
+
+Next == Connect \/ Write \/ PeerRead \/ Cut \/ PeerDown \/ PeerBack \/ Flake
 Spec == Init /\ [][Next]_vars /\ WF_vars(Connect) /\ WF_vars(Write) /\ WF_vars(PeerRead)
 
 \* what the remote actor gets is a strictly increasing sequence of sent ids: subsequence, no duplicate, in order
